@@ -102,8 +102,18 @@ func (s *Service) GetHandler(name string) Handler {
 }
 
 // Handle the reqeust and returns the response.
-func (s *Service) Handle(ctx context.Context, request []byte) ([]byte, error) {
-	response, err := s.handle(ctx, request)
+func (s *Service) Handle(ctx context.Context, request []byte) (response []byte, err error) {
+	defer func() {
+		// encoding the error of the call can panic too (an Error method that dereferences
+		// a nil receiver, a panic value that contains itself)
+		if p := recover(); p != nil {
+			response, err = nil, NewPanicError("the error of the call can not be encoded")
+			if data, e := s.Codec.Encode(err, GetServiceContext(ctx)); e == nil {
+				response = data
+			}
+		}
+	}()
+	response, err = s.handle(ctx, request)
 	if len(response) == 0 {
 		serviceContext := GetServiceContext(ctx)
 		if err == nil {
